@@ -327,6 +327,25 @@ func (r *run) finishThread(tid int) {
 func (r *run) doStep(st *Step) bool {
 	pe, pm, _ := pts(st.T)
 	switch st.A {
+	case "Turn":
+		// the thread takes whatever step it can take next (schedules given as an order of turns: they can be
+		// followed whatever values the merges produce)
+		a := r.nextAction(st.T)
+		if !r.alive[st.T] || a == "" {
+			return true
+		}
+		if a == "Sample" || a == "MergeEnter" || a == "ReadCache" {
+			// not into a read of a role another update is parked in (it would wait), except the probe of that
+			// very role's lock by a merge
+			for w := 1; w <= 4; w++ {
+				if w != st.T && r.alive[w] && r.sched.NParked(ptc(w)) > 0 &&
+					(a == "ReadCache" || r.curAt[w] != r.curAt[st.T] || r.kindOf[w] != r.kindOf[st.T]) {
+					return true
+				}
+			}
+		}
+		st2 := Step{T: st.T, A: a}
+		return r.doStep(&st2)
 	case "Run":
 		// take the update to completion, one recorded step per critical section
 		r.complete(st.T)
@@ -509,6 +528,10 @@ func kindOf(role workflow.Role) string {
 	case strings.HasSuffix(t, "includeRole"):
 		return "inc"
 	case strings.HasSuffix(t, "taskRole"):
+		// a task role with a trigger is a hook task
+		if tt, ok := role.(interface{ GetTaskTraits() task.Traits }); ok && tt.GetTaskTraits().Trigger != "" {
+			return "hook"
+		}
 		return "task"
 	case strings.HasSuffix(t, "callRole"):
 		return "call"
@@ -572,7 +595,7 @@ func (r *run) structure() ([]int, []string, []bool) {
 		par = append(par, p)
 		k := kindOf(n)
 		kinds = append(kinds, k)
-		if k == "task" || k == "call" {
+		if k == "task" || k == "call" || k == "hook" {
 			crit = append(crit, n.IsCritical())
 		} else {
 			crit = append(crit, true)
